@@ -20,6 +20,15 @@ def conventions(chk, verdicts):
             chk.violation({"property": "C20", "kind": "spec-fails-on-implementation", "desc": s["desc"],
                            "failure": f"the array handed to the callback at call {s['callback_arrays_modified_later'][0]} was modified by the solver afterwards (it is the user's to keep)",
                            "signature": {"failure": "callback-array-aliased"}})
+    nb = 0
+    for s, v in verdicts:
+        nb += s.get("callback_points_checked_in_bounds", 0)
+        o = s.get("callback_point_outside")
+        if o:
+            chk.violation({"property": "C20", "kind": "spec-fails-on-implementation", "desc": s["desc"],
+                           "failure": f"the point handed to the callback at call {o['call']}, {o['x']}, is not a point of the user's space within the bounds [{o['lb']}, {o['ub']}]",
+                           "signature": {"failure": "callback-point-outside-bounds"}})
+    chk.coverage["callback_points_checked_within_the_user_bounds"] = nb
     chk.coverage["callback_arrays_checked_unchanged_at_the_end"] = kept
     chk.coverage["runs_checked_for_calling_convention"] = n
 
